@@ -339,10 +339,12 @@ func (fg *FG) block(b *ssa.BasicBlock, pkg *types.Package) {
 				if len(cls) == 0 {
 					continue
 				}
-				// a return statement written inside the loop is not an exit in this sense
+				// a return statement written inside the loop is not an exit in this sense (but it is one
+				// for "leave" clauses)
+				innerReturn := false
 				if len(s.Instrs) > 0 {
 					if r, ok := s.Instrs[len(s.Instrs)-1].(*ssa.Return); ok && fg.posInLoop(h, r.Pos()) {
-						continue
+						innerReturn = true
 					}
 					if _, ok := s.Instrs[len(s.Instrs)-1].(*ssa.Panic); ok {
 						continue
@@ -352,6 +354,9 @@ func (fg *FG) block(b *ssa.BasicBlock, pkg *types.Package) {
 				env := fg.envAt(st, pkg, fg.localResolverAt(b, fn_header(fg, h), st))
 				env.loopEntry = fg.loopEntrySt[h]
 				for k, q := range cls {
+					if innerReturn && !q.Leave {
+						continue
+					}
 					t := env.tr(q.E)
 					fg.oblig("exit", fmt.Sprintf("exit:loop%d#%s@b%d", ord, clauseName(q, k), b.Index), q.Tag, cond, t.T, q.Src, fmt.Sprintf("%s:%d", q.File, q.Line))
 				}
@@ -556,7 +561,7 @@ func (fg *FG) havocLoop(h *ssa.BasicBlock, st *State) {
 // loopFrame: inside a loop every store passes the frame check, so locations outside the function's
 // modifies clause that were allocated before entry are unchanged across iterations.
 func (fg *FG) loopFrame(fam, old, nh string) {
-	if fg.c == nil || strings.HasPrefix(fam, "IT_seen_") {
+	if fg.c == nil || strings.HasPrefix(fam, "IT_seen_") || fam == "G_any_lastSel" {
 		return
 	}
 	srt := fg.heapSort[fam]
@@ -641,10 +646,24 @@ func (fg *FG) loopModFamilies(h *ssa.BasicBlock) map[string]bool {
 				}
 			case *ssa.Call:
 				fg.callFamilies(x.Common(), fams)
+				if fg.lastSelDeclared() {
+					fg.heapSort["G_any_lastSel"] = "(Array Int Int)"
+					fams["G_any_lastSel"] = true
+				}
 			case *ssa.Defer:
 				fg.fail("defer inside a loop is outside the subset")
 			case *ssa.Go:
-			case *ssa.Select, *ssa.UnOp:
+			case *ssa.Select:
+				for _, s := range x.States {
+					if s.Dir == types.SendOnly {
+						fams["CH_len"] = true
+					}
+				}
+				if fg.lastSelDeclared() {
+					fg.heapSort["G_any_lastSel"] = "(Array Int Int)"
+					fams["G_any_lastSel"] = true
+				}
+			case *ssa.UnOp:
 			}
 		}
 	}
@@ -937,10 +956,28 @@ func (fg *FG) bodyFamilies(fn *ssa.Function, fams map[string]bool, depth int) {
 				fg.allocFamilies(x.(ssa.Value), fams)
 			case *ssa.Send:
 				fams["CH_len"] = true
+			case *ssa.Select:
+				for _, s := range x.States {
+					if s.Dir == types.SendOnly {
+						fams["CH_len"] = true
+					}
+				}
+				if fg.lastSelDeclared() {
+					fg.heapSort["G_any_lastSel"] = "(Array Int Int)"
+					fams["G_any_lastSel"] = true
+				}
 			case *ssa.Call:
 				fg.callFamilies(x.Common(), fams)
+				if fg.lastSelDeclared() {
+					fg.heapSort["G_any_lastSel"] = "(Array Int Int)"
+					fams["G_any_lastSel"] = true
+				}
 			case *ssa.Defer:
 				fg.callFamilies(x.Common(), fams)
+				if fg.lastSelDeclared() {
+					fg.heapSort["G_any_lastSel"] = "(Array Int Int)"
+					fams["G_any_lastSel"] = true
+				}
 			}
 		}
 	}
